@@ -8,6 +8,8 @@ import (
 	"fmt"
 	"os"
 	"path/filepath"
+	"runtime"
+	"runtime/debug"
 	"sync"
 	"testing"
 
@@ -71,9 +73,39 @@ func coldStartProbe() {
 	res := make([]string, len(probes)*2)
 	var start, done sync.WaitGroup
 	start.Add(1)
+	// every call kind too, with arguments of several sizes: the first call of each function in this process
+	// is made by goroutines that start together (two per probe, each setting up its own guarded arguments
+	// inside the goroutine, index builders included). Nothing is known about the right answers yet:
+	// the results are compared afterwards with what the same call returns sequentially.
+	// The race detector can only report a conflict while it still holds the history of the earlier access: it
+	// has 256 thread slots, and keeps about 32K memory accesses per goroutine (GORACE history_size=1). On a
+	// busy machine the goroutines of a phase may well run one after the other; so the first phase makes tiny
+	// calls only (forced size 3: whatever the first call of a function initialises is still in the history
+	// when the second goroutine gets there), every goroutine makes ONE call, and the larger arguments follow
+	// in phases of their own, each with fresh goroutines released together.
+	// And no goroutine of a phase may END before all of them have made their call (hold): the detector hands
+	// the thread slot of a finished goroutine to the next one that starts, and everything the former owner
+	// of a slot did counts as having happened before - two goroutines that run one after the other would
+	// never be seen as conflicting.
+	cold := coldKindProbes()
+	var hold sync.WaitGroup
+	hold.Add(1)
+	for _, cp := range cold[0] {
+		for r := range cp.run {
+			cp, r := cp, r
+			done.Add(1)
+			go func() {
+				start.Wait()
+				cp.exec(r)
+				done.Done()
+				hold.Wait()
+			}()
+		}
+	}
 	for gi := range res {
 		done.Add(1)
 		go func(gi int) {
+			defer hold.Wait()
 			defer done.Done()
 			defer func() {
 				if r := recover(); r != nil {
@@ -86,6 +118,27 @@ func coldStartProbe() {
 	}
 	start.Done()
 	done.Wait()
+	hold.Done()
+	for _, phase := range cold[1:] {
+		var start, done, hold sync.WaitGroup
+		start.Add(1)
+		hold.Add(1)
+		for _, cp := range phase {
+			for r := range cp.run {
+				cp, r := cp, r
+				done.Add(1)
+				go func() {
+					start.Wait()
+					cp.exec(r)
+					done.Done()
+					hold.Wait()
+				}()
+			}
+		}
+		start.Done()
+		done.Wait()
+		hold.Done()
+	}
 	if raceBuild {
 		_ = os.Remove(filepath.Join(vk.OutDir(), "race-pending.json"))
 	}
@@ -95,6 +148,86 @@ func coldStartProbe() {
 			return
 		}
 	}
+	for _, phase := range cold {
+		for _, cp := range phase {
+			if m := cp.judge(); m != "" {
+				coldStartResult = "concurrent first use of the library in this process: " + m
+				return
+			}
+		}
+	}
+}
+
+// coldKind is one generic cold-start probe: a call kind with fixed arguments, executed by len(run)
+// goroutines, each on its own guarded copy of the arguments.
+type coldKind struct {
+	salt uint64
+	call Call
+	run  []coldRun
+}
+
+type coldRun struct {
+	g   *guard
+	fn  func() []any
+	res string
+	f   *vk.Failure
+}
+
+// coldSizes: the phases of the generic cold-start probes. Per kind a tiny forced size first, then a natural
+// draw and two larger forced sizes (a size-gated first-use path must be entered concurrently as well).
+var coldSizes = []int{3, -1, 37, 700}
+
+// coldKindProbes returns the probes by phase: [phase][kind].
+func coldKindProbes() [][]*coldKind {
+	out := make([][]*coldKind, len(coldSizes))
+	for j, size := range coldSizes {
+		for fi := range funcs {
+			fi := fi
+			g := rapid.Custom(func(rt *rapid.T) Args { return funcs[fi].gen(rt) })
+			forceSize = size
+			a := g.Example(900001 + 16*fi + j) // fixed: a cold-start failure must reproduce in a replay process
+			forceSize = -1
+			out[j] = append(out[j], &coldKind{salt: uint64(j), call: Call{Fn: funcs[fi].name, A: a}, run: make([]coldRun, 2)})
+		}
+	}
+	return out
+}
+
+func (cp *coldKind) exec(r int) {
+	run := &cp.run[r]
+	run.g = newGuard(r, cp.salt)
+	run.fn, run.f = setupCall(cp.call, run.g)
+	if run.f != nil || run.fn == nil {
+		return
+	}
+	run.res, run.f = runCall(cp.call.Fn, run.fn)
+}
+
+// judge runs after the goroutines have finished: sequential execution is the reference.
+func (cp *coldKind) judge() string {
+	for r := range cp.run {
+		run := &cp.run[r]
+		if run.f != nil {
+			return fmt.Sprintf("%s(%s): %s: %s", cp.call.Fn, argStr(cp.call), run.f.Kind, run.f.Msg)
+		}
+		if run.fn == nil {
+			continue
+		}
+		if v := run.g.verify(); v != "" {
+			return fmt.Sprintf("%s(%s) modified an argument: %s", cp.call.Fn, argStr(cp.call), v)
+		}
+		seq, f := runCall(cp.call.Fn, run.fn)
+		if f != nil {
+			return fmt.Sprintf("%s(%s): %s: %s", cp.call.Fn, argStr(cp.call), f.Kind, f.Msg)
+		}
+		if seq != run.res {
+			return fmt.Sprintf("%s(%s) returned %s when it was among the first calls made by concurrent goroutines, and %s for the same arguments afterwards", cp.call.Fn, argStr(cp.call), clip(run.res), clip(seq))
+		}
+		if run.res != cp.run[0].res {
+			return fmt.Sprintf("%s(%s) returned %s to one goroutine and %s to another (equal arguments, first calls in the process)", cp.call.Fn, argStr(cp.call), clip(cp.run[0].res), clip(run.res))
+		}
+	}
+	return ""
 }
 
 // expectations of the cold-start probes, from the oracles (none of them calls the library)
@@ -143,6 +276,9 @@ func TestColdStart(t *testing.T) {
 }
 
 func TestMain(m *testing.M) {
+	// the live heap of this check is tiny and every case allocates guarded copies of its arguments: with the
+	// default pacing the collector would run a cycle every few cases
+	debug.SetGCPercent(1600)
 	coldStartProbe()
 	vk.SetExtra("hooks", hooksOn)
 	if raceBuild {
@@ -157,25 +293,36 @@ type Call struct {
 }
 
 type Case struct {
-	Op    string `json:"op"`              // call | round
-	Calls []Call `json:"calls"`           // call: exactly one; round: the shared workload
-	Batch []Call `json:"batch,omitempty"` // call: unrelated calls run between the two evaluations
-	G     int    `json:"g,omitempty"`     // round: goroutines
-	Reps  int    `json:"reps,omitempty"`  // round: passes over the workload per goroutine
-	Perm  vk.U64 `json:"perm,omitempty"`  // round: key of the per-goroutine permutations
+	Op    string `json:"op"`               // call | round
+	Calls []Call `json:"calls"`            // call: exactly one; round: the shared workload
+	Batch []Call `json:"batch,omitempty"`  // call: unrelated calls run between the two evaluations
+	G     int    `json:"g,omitempty"`      // round: goroutines
+	Reps  int    `json:"reps,omitempty"`   // round: passes over the workload per goroutine
+	Procs int    `json:"procs2,omitempty"` // call: when > 0 the call is evaluated once more under this GOMAXPROCS setting (the process that varies GOMAXPROCS sets it)
+	Perm  vk.U64 `json:"perm,omitempty"`   // round: key of the per-goroutine permutations; call and round: decides whether an empty slice argument is passed as nil or as an empty slice
 }
 
 var checker = &vk.Checker[Case]{
 	ID: "C19",
-	Rule: fmt.Sprintf("%d call kinds covering the quantifier's list (bitmap Rank64/Rank128/Select32/Select32R64/index builders/NextOne/PrevOne/Slice/ToArray/Getw/Get*/SafeGet*/FromStr32/Join/Of, bmtree PathToIndex/Loose/IndexToPath/AllPaths/Decode/PathOf/PathsOf/path accessors, bitstr New/Len/Cmp/CmpUpto/StrCmpUpto, bitword FromStr(s)/ToStr(s)/Get/FirstDiff, sigbits FirstDiffBits/New+CountPrefixes/ShardByPrefix) with in-domain generated arguments. ", len(funcs)) +
-		"'call' cases: every slice argument (also the prebuilt indexes) is a window into a larger array with canaries before it and in its spare capacity, every string a fresh heap string, []string lists have canary neighbours; all are compared with snapshots after the call (1: arguments unchanged); package tables are compared with independently computed values, with the start-up snapshot of the unexported tables (verif hook) and behaviourally through Select32 / IndexToPath (2: tables unchanged); the call is repeated after a batch of unrelated calls and with relocated arguments, and the slices it returned the first time are rendered again afterwards and must read the same (3: result depends only on arguments and belongs to the caller). " +
-		"'round' cases: a shared workload of ~24 calls is evaluated sequentially, then by G in {2,8,32} goroutines released together, each running keyed permutations of the workload; every result must equal the sequential one, guards and tables are re-checked; the same rounds run in a binary built with the race detector (halt_on_error), where any unsynchronised conflicting access ends the process (4). " +
+	Rule: fmt.Sprintf("%d call kinds covering the quantifier's list (bitmap Rank64/Rank128/Select32/Select32R64/index builders/NextOne/PrevOne/Slice/ToArray/Getw/Get*/SafeGet*/FromStr32/Join/Of/OfMany/Fmt, bmtree PathToIndex/Loose/IndexToPath/AllPaths/Decode/PathOf/PathsOf/path accessors, bitstr New/Len/Cmp/CmpUpto/StrCmpUpto, bitword FromStr(s)/ToStr(s)/Get/FirstDiff, sigbits FirstDiffBits/New+CountPrefixes/ShardByPrefix) with in-domain generated arguments. ", len(funcs)) +
+		"Sizes: the small region of the shared generators (bitmaps <= 10 words, <= 10 keys, strings <= 48 bytes) for about 70% of the calls, otherwise log-uniform (octave uniformly, then 2^k-1, 2^k, 2^k+1 or a uniform position in the octave) up to 8192 words for calls with scalar results, 1024 words for calls whose result grows with the input, 2048 keys, 4096-byte strings, tree heights up to 13 for Decode (seldom 16, and in the grid), 1024 first-level paths for AllPaths (thorough: 8 to 16 times that); large bitmaps and key lists are described by (size, key, style) and expanded deterministically; TestGrid sweeps every kind over 2^k-1, 2^k, 2^k+1 and one keyed size per octave, and one large input per kind is evaluated under every GOMAXPROCS setting of the process that varies it. Positions and ranges aim at both ends of the input and at word boundaries (empty range, whole input, one bit, first bit only ...). " +
+		"'call' cases: every slice argument (also the prebuilt indexes, the [][]byte of ToStrs, the [][]int32 and sizes of OfMany, the integer slices of Fmt) is a window into a larger array with canaries before it and in its spare capacity; an EMPTY slice reaches the library as nil for about half of the cases (same shape in every evaluation of one case); every string is a substring of a fresh heap string 0..7 bytes into it with foreign non-zero bytes around it, which are compared too; []string lists have canary neighbours; all are compared with snapshots after the call and once more at the end of the evaluation, after the later calls (1: arguments unchanged, also after return); package tables are compared with independently computed values, with the start-up snapshot of the unexported tables (verif hook; then the slower behavioural probes through Select32 / IndexToPath run on every 8th check) and the state behind the bitword.BitWord entries behaviourally through every method of every width on fixed inputs (2: tables unchanged); the call is repeated after a batch of unrelated calls (the first of them of the same kind), after the stack was overwritten, under another GOMAXPROCS setting (in the process that varies GOMAXPROCS, and for the tall Decode trees of the grid) and with relocated arguments (other offsets, other string alignment), and the slices it returned the first time are rendered again afterwards and must read the same (3: result depends only on arguments and belongs to the caller). " +
+		"'round' cases: a shared workload (mixed kinds; calls of one kind; or different calls - long NextOne/PrevOne scans next to rank/select/get/slice calls - on ONE shared bitmap) is evaluated sequentially - before the goroutines start or, every other round, after they have finished - and by G in {2,8,32} goroutines released together, each running keyed permutations of the workload; every result must equal the sequential one, guards and tables are re-checked; the same rounds run in a binary built with the race detector (halt_on_error; there a grid runs rounds of every kind and shared-bitmap rounds), where any unsynchronised conflicting access ends the process (4). " +
+		"Cold start: the first calls of the process are made by goroutines released together: fixed probes with expected values, and then every call kind with 4 fixed argument sets (forced size 3 in the first phase, a natural draw, forced sizes 37 and 700 in later phases) by 2 goroutines each, one call per goroutine, arguments set up inside the goroutine; results are compared with sequential execution afterwards. " +
 		"Non-trivial: a call whose arguments include a non-empty slice or string; a round with >= 2 goroutines sharing at least one such argument. Distinct by hash of the case.",
 	Check:    check,
 	Classify: classify,
 }
 
 func nonEmptyArgs(a Args) bool {
+	for _, b := range a.B {
+		if b.N > 0 {
+			return true
+		}
+	}
+	if a.K != nil && a.K.N > 0 {
+		return true
+	}
 	for _, w := range a.W {
 		if len(w) > 0 {
 			return true
@@ -201,14 +348,56 @@ func classify(c Case) (bool, []string) {
 	}
 	if c.Op == "call" && len(c.Calls) == 1 {
 		labels = append(labels, "fn:"+c.Calls[0].Fn)
-		return nonEmptyArgs(c.Calls[0].A), labels
+		if c.Procs > 0 {
+			labels = append(labels, "call:also-under-another-gomaxprocs")
+		}
+		return nonEmptyArgs(c.Calls[0].A), append(labels, argClasses(c.Calls[0].A)...)
 	}
 	labels = append(labels, fmt.Sprintf("g:%d", c.G))
-	shared := false
+	shared, oneBitmap, kinds := false, false, map[string]bool{}
+	maxWords := 0
 	for _, cl := range c.Calls {
 		shared = shared || nonEmptyArgs(cl.A)
+		oneBitmap = oneBitmap || cl.A.Sh != 0
+		kinds[cl.Fn] = true
+		maxWords = max(maxWords, cl.A.wlen(0))
 	}
+	if oneBitmap {
+		labels = append(labels, "round:different-calls-on-one-bitmap", sizeClass("round-shared-bitmap-words", maxWords))
+	} else if len(kinds) == 1 {
+		labels = append(labels, "round:one-kind", "round-kind:"+c.Calls[0].Fn)
+	} else {
+		labels = append(labels, "round:mixed-kinds")
+	}
+	if uint64(c.Perm)>>9&1 == 1 {
+		labels = append(labels, "round:reference-computed-afterwards")
+	}
+	labels = append(labels, sizeClass("round-largest-bitmap-words", maxWords))
 	return c.G >= 2 && shared, labels
+}
+
+// argClasses labels the sizes of the arguments of a call (evidence that no size region is left out).
+func argClasses(a Args) []string {
+	var out []string
+	if len(a.W) > 0 || len(a.B) > 0 {
+		out = append(out, sizeClass("words", a.wlen(0)))
+		if len(a.B) > 0 && a.B[0].N > 0 {
+			out = append(out, "bitmap-style:"+bigStyles[mod(int64(a.B[0].Style), len(bigStyles))])
+		}
+		if len(a.W) > 1 {
+			out = append(out, sizeClass("lists", len(a.W)))
+		}
+	}
+	if a.K != nil {
+		out = append(out, sizeClass("keys", a.K.N), "key-style:"+keyStyles[mod(int64(a.K.Style), len(keyStyles))])
+	} else if len(a.S) > 0 {
+		longest := 0
+		for _, s := range a.S {
+			longest = max(longest, len(s))
+		}
+		out = append(out, sizeClass("strings", len(a.S)), sizeClass("longest-string-bytes", longest))
+	}
+	return out
 }
 
 func setupCall(cl Call, g *guard) (func() []any, *vk.Failure) {
@@ -250,10 +439,15 @@ func argStr(cl Call) string {
 
 func checkCall(c Case) *vk.Failure {
 	cl := c.Calls[0]
-	if t := checkTables(); t != "" {
-		return vk.Failf("tables-before", "a package table is wrong before the call: %s", t)
+	// (every evaluation ends with a table check: the one before the call is needed only when the
+	// previous evaluation did not get that far)
+	if !tablesGood {
+		if t := checkTables(); t != "" {
+			return vk.Failf("tables-before", "a package table is wrong before the call: %s", t)
+		}
 	}
-	g1 := newGuard(0)
+	tablesGood = false
+	g1 := newGuard(0, uint64(c.Perm)).inArena(0, true)
 	fn1, f := setupCall(cl, g1)
 	if f != nil || fn1 == nil {
 		return f
@@ -272,8 +466,10 @@ func checkCall(c Case) *vk.Failure {
 		return vk.Failf("table-modified", "%s(%s) left a package table changed: %s", cl.Fn, argStr(cl), t)
 	}
 	// unrelated calls in between
+	var later []*guard
 	for _, b := range c.Batch {
-		gb := newGuard(1)
+		gb := newGuard(1, uint64(c.Perm)+uint64(len(later))+1).inArena(1, len(later) == 0)
+		later = append(later, gb)
 		fb, f := setupCall(b, gb)
 		if f != nil || fb == nil {
 			return f
@@ -315,7 +511,21 @@ func checkCall(c Case) *vk.Failure {
 	if r2 != r1 {
 		return vk.Failf("result-not-a-function-of-arguments", "%s(%s) returned %s, and after %d unrelated calls %s for the very same arguments", cl.Fn, argStr(cl), clip(r1), len(c.Batch), clip(r2))
 	}
-	g3 := newGuard(3)
+	// nor may it depend on how many scheduler threads there are (a function that cuts its input into
+	// GOMAXPROCS parts): the same live arguments under another setting
+	if c.Procs > 0 {
+		cur := runtime.GOMAXPROCS(c.Procs)
+		rp, f := runCall(cl.Fn, fn1)
+		runtime.GOMAXPROCS(cur)
+		if f != nil {
+			f.Msg = fmt.Sprintf("under GOMAXPROCS=%d: %s", c.Procs, f.Msg)
+			return f
+		}
+		if rp != r1 {
+			return vk.Failf("result-depends-on-gomaxprocs", "%s(%s) returned %s under GOMAXPROCS=%d and %s under GOMAXPROCS=%d", cl.Fn, argStr(cl), clip(r1), cur, clip(rp), c.Procs)
+		}
+	}
+	g3 := newGuard(3, uint64(c.Perm)) // fresh memory: addresses the library has (most likely) never seen
 	fn3, f := setupCall(cl, g3)
 	if f != nil || fn3 == nil {
 		return f
@@ -336,8 +546,22 @@ func checkCall(c Case) *vk.Failure {
 	if t := checkTables(); t != "" {
 		return vk.Failf("table-modified", "a package table changed during the batch after %s: %s", cl.Fn, t)
 	}
+	// an argument stays the caller's after the call has returned: nothing may write to it later either
+	// (a reference kept by the library and written during a later call)
+	if v := g1.verify(); v != "" {
+		return vk.Failf("argument-modified-after-return", "an argument of %s(%s) was unchanged when the call returned and was modified during later calls (%d other calls, the same call repeated): %s", cl.Fn, argStr(cl), len(c.Batch), v)
+	}
+	for i, gb := range later {
+		if v := gb.verify(); v != "" {
+			return vk.Failf("argument-modified-after-return", "an argument of %s(%s) was unchanged when the call returned and was modified during later calls: %s", c.Batch[i].Fn, argStr(c.Batch[i]), v)
+		}
+	}
+	tablesGood = true
 	return nil
 }
+
+// tablesGood: the last thing the previous evaluation did was a successful checkTables.
+var tablesGood bool
 
 var sinkByte byte
 
@@ -360,20 +584,35 @@ func clip(s string) string {
 }
 
 func checkRound(c Case) *vk.Failure {
-	g := newGuard(2)
+	tablesGood = false
+	g := newGuard(2, uint64(c.Perm)).inArena(3, true)
 	fns := make([]func() []any, len(c.Calls))
 	ref := make([]string, len(c.Calls))
+	// the sequential reference is computed before the goroutines start, or (every other round) after
+	// they have finished: then the calls of this round are not preceded by a sequential pass over the
+	// same arguments, and state that a function builds on first use of an input class is built concurrently
+	refAfter := uint64(c.Perm)>>9&1 == 1
 	for i, cl := range c.Calls {
 		fn, f := setupCall(cl, g)
 		if f != nil || fn == nil {
 			return f
 		}
 		fns[i] = fn
-		r, f := runCall(cl.Fn, fn)
-		if f != nil {
+	}
+	seqPass := func() *vk.Failure {
+		for i, cl := range c.Calls {
+			r, f := runCall(cl.Fn, fns[i])
+			if f != nil {
+				return f
+			}
+			ref[i] = r
+		}
+		return nil
+	}
+	if !refAfter {
+		if f := seqPass(); f != nil {
 			return f
 		}
-		ref[i] = r
 	}
 	// the workload is on disk while goroutines run: the race detector ends the process on a report
 	pend := filepath.Join(vk.OutDir(), "race-pending.json")
@@ -387,11 +626,21 @@ func checkRound(c Case) *vk.Failure {
 	reps := max(c.Reps, 1)
 	n := len(fns)
 	errs := make([]*vk.Failure, G)
-	var start, done sync.WaitGroup
+	first := make([][]string, G) // refAfter: what each goroutine got in its first pass
+	for gi := range first {
+		first[gi] = make([]string, n)
+	}
+	// hold: no goroutine ends before all have finished their passes (the race detector hands the thread slot
+	// of a finished goroutine to the next one that starts and then takes everything the former owner did as
+	// having happened before: on a busy machine, where the goroutines may run one after the other, it would
+	// see no conflict at all)
+	var start, done, hold sync.WaitGroup
 	start.Add(1)
+	hold.Add(1)
 	for gi := 0; gi < G; gi++ {
 		done.Add(1)
 		go func(gi int) {
+			defer hold.Wait()
 			defer done.Done()
 			start.Wait()
 			for rep := 0; rep < reps && errs[gi] == nil; rep++ {
@@ -408,8 +657,16 @@ func checkRound(c Case) *vk.Failure {
 						errs[gi] = f
 						return
 					}
-					if r != ref[k] {
-						errs[gi] = vk.Failf("concurrent-result-differs", "goroutine %d of %d: %s(%s) returned %s, sequential execution returned %s", gi, G, c.Calls[k].Fn, argStr(c.Calls[k]), clip(r), clip(ref[k]))
+					want := ref[k]
+					if refAfter {
+						if rep == 0 {
+							first[gi][k] = r
+						}
+						want = first[gi][k]
+					}
+					if r != want {
+						errs[gi] = vk.Failf("concurrent-result-differs", "goroutine %d of %d: %s(%s) returned %s, %s", gi, G, c.Calls[k].Fn, argStr(c.Calls[k]), clip(r),
+							map[bool]string{false: "sequential execution returned " + clip(want), true: "and in an earlier pass of the same goroutine " + clip(want)}[refAfter])
 						return
 					}
 				}
@@ -418,6 +675,7 @@ func checkRound(c Case) *vk.Failure {
 	}
 	start.Done()
 	done.Wait()
+	hold.Done()
 	if raceBuild {
 		_ = os.Remove(pend)
 	}
@@ -428,6 +686,21 @@ func checkRound(c Case) *vk.Failure {
 	}
 	if v := g.verify(); v != "" {
 		return vk.Failf("argument-modified", "a shared argument changed during a concurrent round: %s", v)
+	}
+	if refAfter {
+		if f := seqPass(); f != nil {
+			return f
+		}
+		for gi := range first {
+			for k := range first[gi] {
+				if first[gi][k] != ref[k] {
+					return vk.Failf("concurrent-result-differs", "goroutine %d of %d: %s(%s) returned %s, sequential execution (afterwards) returned %s", gi, G, c.Calls[k].Fn, argStr(c.Calls[k]), clip(first[gi][k]), clip(ref[k]))
+				}
+			}
+		}
+		if v := g.verify(); v != "" {
+			return vk.Failf("argument-modified", "a shared argument changed during the sequential pass of a round: %s", v)
+		}
 	}
 	if t := checkTables(); t != "" {
 		return vk.Failf("table-modified", "a package table changed during a concurrent round: %s", t)
@@ -465,8 +738,17 @@ func genOne(t *rapid.T) Call {
 	return Call{Fn: f.name, A: f.gen(t)}
 }
 
+// otherProcs: in the process that steps through GOMAXPROCS settings every call case names a second
+// setting (mostly not a power of two) for one more evaluation.
+func otherProcs(t *rapid.T) int {
+	if !vk.ProcsVaried() {
+		return 0
+	}
+	return []int{3, 4, 5, 6, 7, 8, 12}[gen.Uniform(t, 7, "procs2")]
+}
+
 func genCall(t *rapid.T) Case {
-	c := Case{Op: "call", Calls: []Call{genOne(t)}}
+	c := Case{Op: "call", Calls: []Call{genOne(t)}, Perm: vk.U64(gen.U64(t, "salt")), Procs: otherProcs(t)}
 	// the batch starts with another call of the same kind on fresh arguments (that is what would
 	// overwrite a result buffer the library keeps), followed by unrelated calls
 	same := funcs[funcIndex[c.Calls[0].Fn]]
@@ -478,56 +760,211 @@ func genCall(t *rapid.T) Case {
 	return c
 }
 
-func genRound(t *rapid.T) Case {
-	n := 8 + gen.Uniform(t, 24, "ncalls")
-	c := Case{Op: "round", G: []int{2, 8, 8, 32}[gen.Uniform(t, 4, "g")], Perm: vk.U64(gen.U64(t, "perm"))}
-	for i := 0; i < n; i++ {
-		c.Calls = append(c.Calls, genOne(t))
+func roundShape(t *rapid.T, c *Case) {
+	// the number of passes per goroutine shrinks with the size of the workload (one unit is about one call on small arguments)
+	cost := 0
+	for _, cl := range c.Calls {
+		cost += 1 + cl.A.wlen(0)/16
+		if cl.A.K != nil {
+			cost += cl.A.K.N / 4
+		}
+		for _, s := range cl.A.S {
+			cost += len(s) / 64
+		}
 	}
-	c.Reps = max(1, 200/n)
+	c.G = []int{2, 8, 8, 32}[gen.Uniform(t, 4, "g")]
+	c.Perm = vk.U64(gen.U64(t, "perm"))
+	c.Reps = max(1, 200/cost)
 	if c.G == 32 {
 		c.Reps = max(1, c.Reps/4)
 	}
+	if raceBuild {
+		// the detector needs two unordered executions of a call, not many passes: fewer passes, more workloads
+		c.Reps = min(c.Reps, 3)
+		c.G = min(c.G, 16)
+	}
+}
+
+func genRound(t *rapid.T) Case {
+	n := 8 + gen.Uniform(t, 24, "ncalls")
+	c := Case{Op: "round"}
+	for i := 0; i < n; i++ {
+		c.Calls = append(c.Calls, genOne(t))
+	}
+	roundShape(t, &c)
+	return c
+}
+
+// genKindRound: a round whose calls are all of one kind (so the rare input classes of that kind are
+// met by concurrent goroutines more often than one call in a mixed round would).
+func genKindRound(t *rapid.T, fi int) Case {
+	n := 12 + gen.Uniform(t, 20, "ncalls")
+	c := Case{Op: "round"}
+	for i := 0; i < n; i++ {
+		c.Calls = append(c.Calls, Call{Fn: funcs[fi].name, A: funcs[fi].gen(t)})
+	}
+	roundShape(t, &c)
+	return c
+}
+
+// the kinds that read a bitmap argument through guard.bm and so can share one bitmap in a round
+var scanKinds = []string{"bitmap.NextOne", "bitmap.PrevOne", "bitmap.NextOne", "bitmap.PrevOne", "bitmap.NextOne", "bitmap.PrevOne",
+	"bitmap.Rank64", "bitmap.Rank128", "bitmap.Select32", "bitmap.Select32R64", "bitmap.Get+Get1", "bitmap.Getw", "bitmap.SafeGet+SafeGet1",
+	"bitmap.Slice", "bitmap.ToArray", "bitmap.IndexRank64", "bitmap.IndexSelect32"}
+
+// genScanRound: DIFFERENT calls over ONE shared bitmap (the same backing array): long scans by
+// NextOne / PrevOne across mostly empty words next to rank / select / get / slice calls on the same
+// words. A function that writes to its bitmap argument and puts the old value back is invisible to
+// every sequential comparison; here another goroutine reads (or scans across) the word meanwhile.
+func genScanRound(t *rapid.T) Case {
+	limit := vk.Pick(4096, 1<<16)
+	if raceBuild {
+		limit = min(limit, 1<<14) // (every word read is instrumented there)
+	}
+	nw := sizeLog(t, 2, limit, "scanwords")
+	spec := drawBig(t, nw, true)
+	if gen.Chance(t, 3, 4, "emptyish") { // long runs of empty words: the scans really are long
+		spec.Style = []int{1, 3, 5, 6, 7, 8, 10}[gen.Uniform(t, 7, "scanstyle")]
+	}
+	n := 8 + gen.Uniform(t, 16, "ncalls")
+	c := Case{Op: "round"}
+	for i := 0; i < n; i++ {
+		name := scanKinds[gen.Uniform(t, len(scanKinds), "scankind")]
+		if nw > 1024 && (name == "bitmap.Slice" || name == "bitmap.ToArray") {
+			name = "bitmap.NextOne"
+		}
+		save := forceSize
+		forceSize = nw // ranges and positions are drawn for a bitmap of this size
+		a := funcs[funcIndex[name]].gen(t)
+		forceSize = save
+		a.W, a.B, a.Sh = nil, []BigBM{spec}, 1
+		c.Calls = append(c.Calls, Call{Fn: name, A: a})
+	}
+	roundShape(t, &c)
 	return c
 }
 
 func TestRegress(t *testing.T) { checker.Regress(t) }
 
-// TestProp: 'call' cases (checks 1-3); in the race build mostly rounds.
+// TestProp: 'call' cases (checks 1-3); in the race build rounds only (mixed kinds, one kind,
+// different calls on one shared bitmap).
 func TestProp(t *testing.T) {
 	checker.Prop(t, func(rt *rapid.T) Case {
 		if raceBuild {
+			switch gen.Uniform(rt, 4, "roundkind") {
+			case 0:
+				return genScanRound(rt)
+			case 1:
+				return genKindRound(rt, gen.Uniform(rt, len(funcs), "kind"))
+			}
 			return genRound(rt)
 		}
-		if gen.Chance(rt, 1, 60, "round") {
+		switch k := gen.Uniform(rt, 120, "round"); {
+		case k < 2:
 			return genRound(rt)
+		case k < 4:
+			return genScanRound(rt)
 		}
 		return genCall(rt)
 	})
 }
 
-// TestGrid: every call kind at least a fixed number of times (so that no kind depends on the draw).
+// sweepMax is the largest forced size of the grid's size sweep for a kind (in the kind's own unit:
+// words, keys, bytes, list elements); kinds whose result grows with the input stop earlier.
+func sweepMax(name string) int {
+	switch name {
+	case "bitmap.Rank64", "bitmap.Rank128", "bitmap.Select32", "bitmap.Select32R64", "bitmap.NextOne", "bitmap.PrevOne",
+		"bitmap.Getw", "bitmap.Get+Get1", "bitmap.SafeGet+SafeGet1", "bitmap.IndexRank64", "bitmap.IndexRank128",
+		"bitmap.IndexSelect32", "bitmap.IndexSelect32R64":
+		return bigScalar()
+	case "bitmap.Of":
+		return bigSlice() / 8
+	case "bmtree.PathToIndex+Loose", "bmtree.IndexToPath", "bmtree.NewPath+PathLen+PathHeight+PathBits+PathMask+PathStr":
+		return 0 // no size-like argument
+	case "bitmap.FromStr32", "bitstr.New+Len", "bitstr.Cmp", "bitstr.CmpUpto+StrCmpUpto", "bitword.FromStr+Get+ToStr", "bitword.ToStr", "bitword.FirstDiff":
+		return bigStr()
+	case "bmtree.PathOf+PathsOf", "sigbits.FirstDiffBits", "sigbits.New(list with repeated keys)", "sigbits.New+CountPrefixes", "sigbits.ShardByPrefix":
+		return bigKeys()
+	}
+	return bigSlice()
+}
+
+// sweepSizes: 2^k-1, 2^k, 2^k+1 and a keyed size inside every octave from 8 up to limit.
+func sweepSizes(limit int, key uint64) []int {
+	var out []int
+	for k := 3; 1<<uint(k) <= limit; k++ {
+		b := 1 << uint(k)
+		for _, n := range []int{b - 1, b, b + 1, b + 2 + int(vk.Mix(key+uint64(k))%uint64(b-2))} {
+			if n <= limit {
+				out = append(out, n)
+			}
+		}
+	}
+	return out
+}
+
+func gridCase(fi int, exampleSeed int, size int) Case {
+	g := rapid.Custom(func(rt *rapid.T) Case {
+		return Case{Op: "call", Calls: []Call{{Fn: funcs[fi].name, A: funcs[fi].gen(rt)}}, Perm: vk.U64(gen.U64(rt, "salt")), Procs: otherProcs(rt)}
+	})
+	forceSize = size
+	defer func() { forceSize = -1 }()
+	return g.Example(exampleSeed)
+}
+
+// TestGrid: every call kind at least a fixed number of times (so that no kind depends on the draw), and
+// every kind with a size-like argument at sizes 2^k-1, 2^k, 2^k+1 and one more size per octave.
+// Race build: rounds of one kind for every kind, and rounds of different calls on one shared bitmap.
 func TestGrid(t *testing.T) {
+	vk.SetPhase("grid")
 	if raceBuild {
+		for fi := range funcs {
+			fi := fi
+			g := rapid.Custom(func(rt *rapid.T) Case { return genKindRound(rt, fi) })
+			for k := 0; k < vk.Pick(2, 6); k++ {
+				checker.Run(t, g.Example(int(vk.Mix(uint64(fi)*7919+uint64(k))>>1)+int(vk.Seed())))
+			}
+		}
+		g := rapid.Custom(genScanRound)
+		for k := 0; k < vk.Pick(16, 200); k++ {
+			checker.Run(t, g.Example(int(vk.Mix(0x5ca9+uint64(k))>>1)+int(vk.Seed())))
+		}
 		return
 	}
-	vk.SetPhase("grid")
 	// table self-check first: a damaged table at start-up is reported as such
 	if s := checkTables(); s != "" {
 		t.Fatalf("VERIF-FAIL property=C19 kind=tables-at-startup: %s", s)
 	}
 	per := vk.Pick(60, 300)
 	for fi := range funcs {
-		fi := fi
-		seed := uint64(1000 + fi)
-		_ = seed
-		// rapid.Custom draws through a fixed-seed example stream: deterministic per kind
-		g := rapid.Custom(func(rt *rapid.T) Case {
-			return Case{Op: "call", Calls: []Call{{Fn: funcs[fi].name, A: funcs[fi].gen(rt)}}}
-		})
 		for k := 0; k < per; k++ {
-			c := g.Example(int(vk.Mix(uint64(fi)*100003+uint64(k))>>1) + int(vk.Seed()))
-			checker.Run(t, c)
+			checker.Run(t, gridCase(fi, int(vk.Mix(uint64(fi)*100003+uint64(k))>>1)+int(vk.Seed()), -1))
 		}
+		limit := sweepMax(funcs[fi].name)
+		sizes := sweepSizes(limit, uint64(fi)*977+vk.Seed())
+		for k, n := range sizes {
+			checker.Run(t, gridCase(fi, int(vk.Mix(uint64(fi)*31337+uint64(k))>>1)+int(vk.Seed()), n))
+		}
+		if limit >= 256 {
+			// one large input per kind (a keyed size in the upper half of the range) meets every scheduler
+			// width in the process that varies GOMAXPROCS
+			n := limit/2 + int(vk.Mix(uint64(fi)*4099+vk.Seed())%uint64(limit/2))
+			c := gridCase(fi, int(vk.Mix(uint64(fi)*65537)>>1)+int(vk.Seed()), n)
+			vk.ProcsSweep(func() { checker.Run(t, c) })
+		}
+	}
+	// trees of height 16 for Decode (2^16 first-level values; an all-ones and a dense bitmap, so the nodes at the
+	// far right edge of the tree are set), each evaluated once more under GOMAXPROCS 3 and under GOMAXPROCS 4
+	for k, mask := range []int64{1 << 16, 1<<17 - 1} {
+		for _, other := range []int{3, 4} {
+			checker.Run(t, Case{Op: "call", Perm: vk.U64(k), Procs: other, Calls: []Call{{Fn: "bmtree.Decode",
+				A: Args{N: []int64{mask}, B: []BigBM{{N: int(mask>>6) + 1, Key: vk.U64(vk.Seed() + uint64(k)), Style: []int{4, 2}[k]}}}}}})
+		}
+	}
+	// a few rounds of different calls on one shared bitmap in the plain build too (wrong results are
+	// visible without the race detector when a scan runs across a word another call has changed)
+	g := rapid.Custom(genScanRound)
+	for k := 0; k < vk.Pick(6, 60); k++ {
+		checker.Run(t, g.Example(int(vk.Mix(0x5ca9+uint64(k))>>1)+int(vk.Seed())))
 	}
 }
